@@ -27,6 +27,8 @@ CFG = {
     "quick2": dict(Temps={0, 100, 200}, CPs={1, 2}, DTCs={0, 50}, MaxStreams=2, NZones=2, Ladders={0, 1, 2, 3, 4, 6}),
     "quick3": dict(Temps={0, 100, 200}, CPs={1, 2}, DTCs={0, 50}, MaxStreams=3, NZones=2, Ladders={0, 1, 2}),
     "near": dict(Temps={120, 130, 140}, CPs={1, 2}, DTCs={0}, MaxStreams=2, NZones=2, Ladders={5}),
+    # isothermal (latent) streams: 1-unit wide in the specification, passed with supply == target where the code's own rule applies
+    "latent": dict(Temps={0, 100, 200}, CPs={1}, DTCs={0, 50}, LatentCPs={150}, MaxStreams=2, NZones=2, Ladders={0, 2}),
     "deep3": dict(Temps={0, 100, 200, 300}, CPs={1, 2}, DTCs={0, 50}, MaxStreams=3, NZones=3, Ladders={0, 1, 2, 3, 4, 6}),
 }
 EMB_BASE = Emb("native", 100.0, 0.01, 1.0, True)
@@ -69,7 +71,10 @@ def request(S, z, ladder, emb: Emb, with_units=False, nest=False):
     for i, s in enumerate(S):
         lo, hi = s["lo"], s["hi"]
         ts, tt = (hi, lo) if s["k"] == "H" else (lo, hi)
-        streams.append(dict(zone=zlabel(z[i], nest), name=f"S{i+1}", t_supply=num(emb.T(ts), "degC"), t_target=num(emb.T(tt), "degC"),
+        t_sup, t_tar = emb.T(ts), emb.T(tt)
+        if emb.native_latent and hi - lo == 1 and s["k"] == "C":
+            t_tar = t_sup            # an isothermal stream: the code's own "supply == target means a 0.01 K latent stream" rule
+        streams.append(dict(zone=zlabel(z[i], nest), name=f"S{i+1}", t_supply=num(t_sup, "degC"), t_target=num(t_tar, "degC"),
                             heat_flow=num(emb.Q(s["cp"] * (hi - lo)), "kW"), dt_cont=num(emb.dT(s["dtc"]), "degC"), htc=num(1.0, "kW/m2K")))
     # a declared (installed) duty on the utility is legal input and must not influence targeting; inactive utilities must be ignored
     utils = [dict(name=u["name"], type=u["type"], t_supply=num(emb.T(u["ts"]), "degC"), t_target=num(emb.T(u["tt"]), "degC"),
@@ -325,6 +330,8 @@ def site_leg(run, tier, names, accept):
             cases = sample(cases, 1000, 2)
         if name == "quick3":
             cases = sample(cases, 200, 3)
+        if name == "latent":
+            cases = sample(cases, 150 if tier == "quick" else 2000, 6)
         if name == "deep3":
             cases = sample(cases, 6000, 4)
         with Pool(16, initializer=_init) as pool:
@@ -363,7 +370,7 @@ def check(prop, tier, run: Run, replay_case=None):
         return
     run.assumptions += ["site problems on the lattice under the native embedding (1 unit = 0.01 K, so the code's absolute 1 K level-matching window is 100 units)",
                         "reported numbers transported to TLC in fixed point (1e-4 lattice units), compared within 12 units (< 1e-6 of the total duty plus rounding)"]
-    names = ["quick2", "quick3", "near"] if tier == "quick" else ["quick2", "near", "deep3"]
+    names = ["quick2", "quick3", "near", "latent"] if tier == "quick" else ["quick2", "near", "latent", "deep3"]
     nontriv = site_leg(run, tier, names, lambda c: c if (c.startswith(pre) or (prop == "C14" and c.startswith("C13.one_graph"))) else None)
     if prop in ("C02", "C09", "C14"):
         from . import corpus
